@@ -370,7 +370,10 @@ def _fold(b, o, depth=0):
         if x is None or y is None:
             return None
         op = rv["op"].replace("WithOverflow", "").replace("Unchecked", "")
-        return {"Add": x + y, "Sub": x - y, "Mul": x * y, "BitAnd": x & y, "BitOr": x | y, "Shl": x << y, "Shr": x >> y}.get(op)
+        if op in ("Div", "Rem") and y == 0:
+            return None
+        return {"Add": x + y, "Sub": x - y, "Mul": x * y, "BitAnd": x & y, "BitOr": x | y, "BitXor": x ^ y, "Shl": x << y, "Shr": x >> y,
+                "Div": x // y if y else None, "Rem": x % y if y else None}.get(op)
     return None
 
 
@@ -557,15 +560,53 @@ def r_bitmask_defs(F, V):
                             live -= b.reachable_from(dx, tuple(zero_t)) - b.reachable_from(zero_t[0]) if zero_t else set()
         prims = [(callee_path(t) or "") for i, t in b.calls() if i in live and ("leading_zeros" in (callee_path(t) or "") or "trailing_zeros" in (callee_path(t) or ""))]
         probs = []
-        if not divs or bad:
-            probs.append("the bit position is not divided by BITMASK_STRIDE (%d)" % consts["BITMASK_STRIDE"])
-        if not prims or not all(p_.endswith(prim) for p_ in prims):
+        stride = consts["BITMASK_STRIDE"]
+        if bad or (not divs and stride != 1):
+            probs.append("the bit position is not divided by BITMASK_STRIDE (%d)" % stride)
+        # an equivalent spelling: lowest_set_bit().unwrap_or(K) is trailing_zeros exactly when K = BITS / STRIDE (the
+        # value for the empty mask: "no set bit in the whole group")
+        via_lowest = [i for i, t in b.calls() if (callee_path(t) or "").endswith("BitMask::lowest_set_bit")]
+        uo = [t for i, t in b.calls() if (callee_path(t) or "").endswith("Option::unwrap_or")]
+        if fn == "trailing_zeros" and via_lowest and uo and not prims:
+            bits_ = None
+            for p_, v_ in F.consts.items():
+                if p_.endswith("BITMASK_MASK"):
+                    bits_ = v_.get("bits")
+            kdef = _fold(b, uo[0]["args"][1]) if len(uo[0]["args"]) > 1 else None
+            if kdef is None or bits_ is None:
+                R.inst(key, "trailing_zeros via lowest_set_bit().unwrap_or(<not a constant>): not judged", "exempt", False, where(b))
+                continue
+            if kdef != bits_ // stride:
+                probs = ["for the empty mask it returns %d instead of %d (= BITS / STRIDE, 'no set bit in the whole group')" % (kdef, bits_ // stride)]
+            else:
+                probs = []
+        elif not prims or not all(p_.endswith(prim) for p_ in prims):
             probs.append("the live arm counts %s instead of %s" % ([p_.split("::")[-1] for p_ in prims], prim))
         if probs:
             R.violation(key, b, "BitMask::%s: %s: bit positions no longer map to bucket indices within the group" % (fn, "; ".join(probs)))
             R.inst(key, "; ".join(probs), "violation", True, where(b))
         else:
             R.inst(key, "%s / BITMASK_STRIDE" % prim, "ok", True, where(b))
+    lb = F.bodies.get("control::bitmask::BitMask::lowest_set_bit")
+    if lb is not None:
+        n += 1
+        key = "BitMask::lowest_set_bit|stride"
+        stride = consts["BITMASK_STRIDE"]
+        reach = F.reachable_fns("control::bitmask::BitMask::lowest_set_bit")
+        has_div = False
+        for q in reach:
+            qb = F.bodies.get(q)
+            if qb is None or not q.startswith("control::bitmask::"):
+                continue
+            for i, k, st in qb.stmts():
+                if st["k"] == "assign" and st["rv"]["k"] == "binop" and st["rv"]["op"] == "Div" and st["rv"]["b"]["k"] == "const" and st["rv"]["b"].get("val") == stride:
+                    has_div = True
+        if has_div or stride == 1:
+            R.inst(key, "index of the lowest set bit = trailing zeros / BITMASK_STRIDE (%d)%s" % (stride, "" if has_div else " (stride 1: the division is the identity in this configuration)"), "ok", True, where(lb))
+        else:
+            R.violation(key, lb, "lowest_set_bit does not divide the bit position by BITMASK_STRIDE (%d): with this back-end bit i*%d+%d stands for bucket i, so bucket indices come out %d times too large "
+                        "(out-of-bounds buckets from every scan)" % (stride, stride, stride - 1, stride))
+            R.inst(key, "stride not applied", "violation", True, where(lb))
     R.floor("bitmask definitions judged", n, 5)
     return R
 
